@@ -55,6 +55,71 @@ CHECKS = {
              'classes (the tables are the functions); string-level parsing results are not decided.',
         note=TRUST + 'polynomial and escape codes from the eBUS specification as quoted in the property',
         technique='evaluated-constant table extraction, operand provenance, switch-table extraction, guard dominance'),
+    'C06': dict(
+        text='necessary structural conditions of the round trip only: decode and encode side of each codec consult the same '
+             'layout flags/members (declared one-sided flags excepted), traverse bytes and place values identically, the '
+             'TEM_P bit layout is proven inverse by bit provenance, value-list encoding looks up names before raw numbers. '
+             'Round-trip equality for value-dependent encodings (rounding, dates, strings) is NOT decided - weak claim.',
+        note=TRUST + 'no core rule; the behaviour itself quantifies over runtime values',
+        technique='flag-set extraction through resolved hasFlag() calls, bit provenance, dominance'),
+    'C08': dict(
+        text='bit-field placement tables are extracted from the three key builders and the re-keying loop and must agree '
+             '(fields at 61/56/48/40/32, XOR fold 24..0 wrapping, masks); the exact ID check behind the hash compares every '
+             'byte (plain and chained) and is applied to every lookup; probe loop order/filters; max-length bookkeeping; '
+             'same-key candidates are ordered by ID length. "Longest match" for concrete definition sets is not decided.',
+        note=TRUST + 'macros of message.cpp evaluated through a probe translation unit',
+        technique='sibling agreement of extracted bit layouts + typestate/dominance on the lookup code'),
+    'C09': dict(
+        text='necessary structural conditions only: NN placeholder and adjustHeader() on every successful build path, header '
+             'byte order, length check before construction, bounded chain indexes, NN of a chained part equals the bytes '
+             'pushed. Value agreement of prepare/store/decode is NOT decided - weak claim (identification back is covered by '
+             'the C08 rules).',
+        note=TRUST + 'no core rule',
+        technique='must-pass-through and dominance on the CFG'),
+    'C10': dict(
+        text='the four offset walkers of DataFieldSet (length, read raw, read text, write) must share one bookkeeping '
+             'skeleton (initial values in every slot, guarded step-back, advance by field length, after-bookkeeping); bit '
+             'fields are OR-ed only into the first partial byte; number base and float format are defined before every '
+             'numeric insertion so that decoding a set equals decoding each field. Value-level independence is not decided.',
+        note=TRUST,
+        technique='sibling skeleton extraction and comparison + stream typestate'),
+    'C14': dict(
+        text='codec bit layout proven inverse by bit provenance (encoder macros evaluated by the compiler on a bit basis, '
+             'decoder expressions from the AST), symbol tables equal docs/enhanced_proto.md, every response symbol has a '
+             'case, buffer consumed exactly once, second byte read only when buffered, RESULT_CONTINUE only for complete '
+             'items, one symbol per call, bounded info buffer, transport append/consume expressions. Chunk-partition '
+             'independence as such is not decided.',
+        note=TRUST + 'docs/enhanced_proto.md is the protocol definition',
+        technique='bit provenance, switch exhaustiveness, must-pass-through, typestate exploration'),
+    'C16': dict(
+        text='taint/typestate of Message pointers in the read/write handlers and data sinks: an unfiltered lookup result '
+             'reaches a bus access / decode / poll-priority change only after hasLevel(levels); filtered lookups pass the '
+             'caller levels; level provenance (getUserLevels(user), user set only after checkSecret, HTTP user levels only '
+             'after a successful check); token-boundary structure of checkLevel. Exact-token semantics for all strings is '
+             'value-level and not decided.',
+        note=TRUST + 'executeFind with explicit level option is documented as unrestricted and excluded',
+        technique='static taint + typestate exploration + provenance of the level argument'),
+    'C17': dict(
+        text='necessary structural conditions only: the comparator is evaluated on all 27 sign vectors and must be the '
+             'lexicographic order; every selection advances virtual time by the priority, maintains the high-water mark and '
+             're-inserts; first priorities are anchored at the high-water mark. Frequencies and bounded waiting over '
+             'histories are NOT decided - weak claim.',
+        note=TRUST + 'no core rule; heap discipline under in-place order changes is not checked',
+        technique='sign-domain abstract evaluation of the comparator + must-pass-through'),
+    'C19': dict(
+        text='writer/reader table agreement: default column map == dump order, field sub-columns, every known column has '
+             'a dump branch, chained dump writes every part length; quote doubling; the quote state machine of the line '
+             'splitter opens only outside and closes only inside quoted text. Equality of reloaded definitions is not decided.',
+        note=TRUST,
+        technique='constant table extraction and comparison + guard dominance'),
+    'C20': dict(
+        text='generic safety rules over the input-processing sources: 367 format call sites literal or provably %-free; 57 '
+             'fixed-array subscripts and 26 variable shifts proven in range by type/enum ranges or path-sensitive interval '
+             'analysis (aliases, switch refinement, widening); raw memory call sizes; lock pairing for 21 lock users; name '
+             'index key schema agreement. General absence of UB, termination bounds and recovery are not decided.',
+        note=TRUST + 'library contracts: recv/read return at most the requested size; two very large functions are '
+             'unclassified for lock pairing (MainLoop::run, MqttHandler::run)',
+        technique='format provenance, interval analysis on the CFG, lock-pairing typestate, sibling agreement'),
     'C07': dict(
         text='static dataflow + path-sensitive dominance over the clang CFG: every narrowing conversion of a '
              'strtol/strtoul/strtod result (or float parameter of a data type method) in the codec sources is bounded on the '
